@@ -14,8 +14,9 @@ from multidecoder.multidecoder import Multidecoder
 from multidecoder.node import Node
 
 TEXT = b"abcDEFghiJKL"
+TEXT_WS = b"ab  cD\tEf  gh "
 
-KINDS = ("ctx", "CTX", "dec", "kids", "same")
+KINDS = ("ctx", "CTX", "dec", "kids", "same", "trim")
 
 
 def make_hit(text, spec, log):
@@ -30,7 +31,9 @@ def make_hit(text, spec, log):
         value = b"<" + tag.encode() + b">"
     elif kind == "kids":
         value = covered
-        children = [Node("kid", value[:1], "", 0, min(1, len(value)))]
+        children = [Node("kid", value[:2], "", 0, min(2, len(value)))]
+    elif kind == "trim":
+        value = covered.strip()  # differs from the covered text only by surrounding whitespace: still a DECODED value
     elif kind == "same":
         value = covered
     else:
@@ -41,21 +44,22 @@ def make_hit(text, spec, log):
     return n
 
 
-def registry_from(table, log, order):
-    """table: {text: [spec...]} ; one decoder per spec index (so registry order matters), in the given order."""
+def registry_from(table, log, order, groups=None):
+    """table: {text: [spec...]}.  Decoder g returns the hits of the spec indices in groups[g], IN THAT ORDER (a decoder
+    need not list its hits sorted); by default one decoder per spec index.  `order` is the registry order."""
     width = max((len(v) for v in table.values()), default=0)
+    if groups is None:
+        groups = [[k] for k in range(width)]
 
-    def mk(k):
-        def dec(data, k=k):
+    def mk(idxs):
+        def dec(data, idxs=idxs):
             specs = table.get(data, [])
-            if k < len(specs) and specs[k] is not None:
-                return [make_hit(data, specs[k], log)]
-            return []
+            return [make_hit(data, specs[k], log) for k in idxs if k < len(specs) and specs[k] is not None]
 
         return dec
 
-    decs = [mk(k) for k in range(width)]
-    return [decs[k] for k in order if k < width]
+    decs = [mk(g) for g in groups]
+    return [decs[k] for k in order if k < len(decs)] + [decs[k] for k in range(len(decs)) if k not in order]
 
 
 # ------------------------------------------------------------------------------------------------ reference (C06)
@@ -121,7 +125,12 @@ def check_wf(root, data):
             if c.parent is not p:
                 errs.append(f"parent link of {c.type} wrong")
             if not (0 <= c.start <= c.end <= len(p.value)):
-                errs.append(f"span [{c.start},{c.end}) of {c.type} out of bounds of parent value (len {len(p.value)})")
+                how = ""
+                if c.type == "shell.powershell" and p.type == "shell.cmd" and c.start == 0 and c.end == len(c.value):
+                    how = " {powershell child spans its OWN rewritten value, not the caret-unescaped parent}"
+                if c.type == "shell.powershell" and p is root and c.end == len(p.value) - c.start:
+                    how = " {no-context branch: end = len(data) - start}"
+                errs.append(f"span [{c.start},{c.end}) of {c.type} under {p.type or 'root'!r} out of bounds of parent value (len {len(p.value)}){how}")
             walk(c)
 
     walk(root)
@@ -207,15 +216,29 @@ def configs(tier, seed, text=TEXT[:6]):
     big = TEXT
     ivb = intervals(len(big))
     count = 1500 if tier == "quick" else 40000
-    for _ in range(count):
+    for it in range(count):
         n = rng.randint(3, 6)
         specs = []
+        txt = TEXT_WS if it % 4 == 3 else big
+        ivt = intervals(len(txt))
         for i in range(n):
-            a, b = rng.choice(ivb)
+            a, b = rng.choice(ivt)
             if rng.random() < 0.15:
-                a, b = 0, len(big)
+                a, b = 0, len(txt)
             specs.append((a, b, rng.choice(KINDS), str(i)))
-        yield big, specs
+        yield txt, specs
+
+
+def random_groups(rng, n):
+    """A random partition of the spec indices into decoders, each listing its hits in a random order."""
+    idx = list(range(n))
+    rng.shuffle(idx)
+    groups, i = [], 0
+    while i < n:
+        k = rng.randint(1, 3)
+        groups.append(idx[i : i + k])
+        i += k
+    return groups
 
 
 def run(tier, seed, clauses=("C03", "C04", "C05", "C06", "C07", "C08")):
@@ -227,6 +250,10 @@ def run(tier, seed, clauses=("C03", "C04", "C05", "C06", "C07", "C08")):
         for order in ([list(range(len(specs)))] if len(specs) > 2 else itertools.permutations(range(len(specs)))):
             order = list(order)
             case = {"text": text.decode("latin-1"), "specs": specs, "order": order, "depth": 3}
+            if len(specs) > 2 and evals % 2 == 0:
+                grng = random.Random(evals + seed)
+                case["groups"] = random_groups(grng, len(specs))
+                case["order"] = list(range(len(case["groups"])))
             errs = eval_case(case, clauses)
             evals += 1
             key = tuple(sorted((s[0], s[1], s[2]) for s in specs))
@@ -249,6 +276,17 @@ def run(tier, seed, clauses=("C03", "C04", "C05", "C06", "C07", "C08")):
 
 
 def eval_case(case, clauses=("C03", "C04", "C05", "C06", "C07", "C08")):
+    from props.fuzz import Timeout, with_timeout
+
+    try:
+        return with_timeout(5, _eval_case, case, clauses)
+    except Timeout:
+        return [("termination", "the real scan did not terminate within 5 s on this configuration (the clause cannot even be evaluated)")]
+    except RecursionError:
+        return [("termination", "the real scan exceeded the recursion limit on this configuration")]
+
+
+def _eval_case(case, clauses=("C03", "C04", "C05", "C06", "C07", "C08")):
     text = case["text"].encode("latin-1")
     specs = [tuple(s) for s in case["specs"]]
     # decoded values are searched again: give the first decoded value one nested hit so that recursion is exercised
@@ -257,16 +295,27 @@ def eval_case(case, clauses=("C03", "C04", "C05", "C06", "C07", "C08")):
         if s[2] == "dec":
             v = b"<" + s[3].encode() + b">"
             table.setdefault(v, [(0, len(v), "dec", s[3] + "'"), (1, 2, "ctx", s[3] + '"')])
+        if s[2] == "kids":
+            kv = text[s[0] : s[1]][:2]
+            if kv:
+                table.setdefault(kv, [(0, len(kv), "dec", s[3] + "k")])  # the supplied child is itself searchable
+    groups = case.get("groups")
     errs = []
     trees = {}
     depth = case.get("depth", 3)
-    for k in sorted({depth, depth + 1, 0, 1, -1}):
+    for k in sorted({depth, depth + 1, 0, 1, 2, -1}):
         log = {}
-        reg = registry_from(table, log, case["order"] + [x for x in range(8) if x not in case["order"]])
+        reg = registry_from(table, log, case["order"], groups)
         md = Multidecoder(reg)
         root = md.scan(text, k)
         trees[k] = T(root)[5]
         if k != depth:
+            if k in (1, 2) and "C06" in clauses:
+                log2 = {}
+                reg2 = registry_from(table, log2, case["order"], groups)
+                ref = ref_children(reg2, "", text, (), k)
+                if ref != trees[k]:
+                    errs.append(("C06", f"depth {k}: tree differs from the reference procedure: got {trees[k]!r} expected {ref!r}"))
             continue
         if "C03" in clauses:
             errs += [("C03", e) for e in check_wf(root, text)]
@@ -276,7 +325,7 @@ def eval_case(case, clauses=("C03", "C04", "C05", "C06", "C07", "C08")):
             errs += [("C05", e) for e in check_laminar(root)]
         if "C06" in clauses:
             log2 = {}
-            reg2 = registry_from(table, log2, case["order"] + [x for x in range(8) if x not in case["order"]])
+            reg2 = registry_from(table, log2, case["order"], groups)
             ref = ref_children(reg2, "", text, (), k)
             if ref != trees[k]:
                 errs.append(("C06", f"tree differs from the reference procedure: got {trees[k]!r} expected {ref!r}"))
@@ -290,7 +339,7 @@ def eval_case(case, clauses=("C03", "C04", "C05", "C06", "C07", "C08")):
                             d += 1
                         p = p.parent
                     log3 = {}
-                    reg3 = registry_from(table, log3, case["order"] + [x for x in range(8) if x not in case["order"]])
+                    reg3 = registry_from(table, log3, case["order"], groups)
                     alone = Multidecoder(reg3).scan_node(Node(n.type, n.value), k - d)
                     if T(alone)[5] != T(n)[5]:
                         errs.append(("C08", f"children of decoded node {n.type} differ from a stand-alone scan of its value"))
